@@ -91,3 +91,29 @@ Theorem C03_request_chunking_reported : forall cb g r (chunks : list bytes),
   exists t, c_txs (fst (cp_run cb g connp_new (OpOpen :: map OpReqData chunks))) = [Some t] /\ wr_reported (c03_mask t) r.
 Proof. exact sg_request_chunking_reported. Qed.
 Print Assumptions C03_request_chunking_reported.
+
+(* ---- folded header lines and Content-Length bodies: two foldings (every field value cut into continuation lines, cuts) and two chunkings of the
+        same request give the same reported transactions; for the folded request they are what was sent ---- *)
+Require Import Htp.Proof.PSegFold Htp.Proof.PSegBody.
+Theorem C03_request_folding_and_chunking : forall cb g r (cuts1 : list (list bytes)) (chunks1 : list bytes) (cuts2 : list (list bytes)) (chunks2 : list bytes),
+  wr_all_ok cb -> g_allow_space_uri g = false -> wr_request_ok r = true ->
+  sg_cuts_ok r cuts1 = true -> sg_fold_fits g r cuts1 = true -> Forall (fun x => x <> []) chunks1 -> concat chunks1 = sg_fold_wire r cuts1 ->
+  sg_cuts_ok r cuts2 = true -> sg_fold_fits g r cuts2 = true -> Forall (fun x => x <> []) chunks2 -> concat chunks2 = sg_fold_wire r cuts2 ->
+  c03_obs cb g (OpOpen :: map OpReqData chunks1) = c03_obs cb g (OpOpen :: map OpReqData chunks2).
+Proof. exact sg_request_fold_chunking_obs. Qed.
+Print Assumptions C03_request_folding_and_chunking.
+Theorem C03_request_folding_reported : forall cb g r (cuts : list (list bytes)) (chunks : list bytes),
+  wr_all_ok cb -> g_allow_space_uri g = false -> wr_request_ok r = true -> sg_cuts_ok r cuts = true -> sg_fold_fits g r cuts = true ->
+  Forall (fun x => x <> []) chunks -> concat chunks = sg_fold_wire r cuts ->
+  exists t, c_txs (fst (cp_run cb g connp_new (OpOpen :: map OpReqData chunks))) = [Some t] /\ wr_reported (c03_mask t) r.
+Proof. exact sg_request_fold_chunking_reported. Qed.
+Print Assumptions C03_request_folding_reported.
+(* a request with a Content-Length body (sg_body_ok: the model's end-of-headers decision is IDENTITY with content length |body|): all transaction
+   fields, including entity and message length, are the same for every folding and chunking *)
+Theorem C03_request_body_chunking : forall cb g r (body : bytes) (cuts1 : list (list bytes)) (chunks1 : list bytes) (cuts2 : list (list bytes)) (chunks2 : list bytes),
+  wr_all_ok cb -> g_allow_space_uri g = false -> sg_body_ok g r body = true ->
+  sg_cuts_ok r cuts1 = true -> sg_fold_fits g r cuts1 = true -> Forall (fun x => x <> []) chunks1 -> concat chunks1 = sg_fold_wire r cuts1 ++ body ->
+  sg_cuts_ok r cuts2 = true -> sg_fold_fits g r cuts2 = true -> Forall (fun x => x <> []) chunks2 -> concat chunks2 = sg_fold_wire r cuts2 ++ body ->
+  c03_obs cb g (OpOpen :: map OpReqData chunks1) = c03_obs cb g (OpOpen :: map OpReqData chunks2).
+Proof. exact sg_request_body_chunking_obs. Qed.
+Print Assumptions C03_request_body_chunking.
